@@ -151,13 +151,14 @@ def average (useParam : Bool) (nvals : Nat) (bs : List Blk) : Option (List Rat) 
     if rsum ws = 0 then none
     else some ((List.range nvals).map (fun j => wmean ws (column j cs)))
 
-/-- `_calcWeightedBurnup`: loops over ALL blocks of the collection (not only the candidates);
+/-- `_calcWeightedBurnup` (after fix 5b02166): loops over the CANDIDATE blocks of the collection;
 weight = massHmBOL · getWeight / volume; 0 when the total weight is 0. `vals = [massHmBOL, percentBu]`.
-none = ZeroDivisionError (a block of zero volume). -/
+none = ZeroDivisionError (a candidate block of zero volume). -/
 def weightedBurnup (useParam : Bool) (bs : List Blk) : Option Rat :=
-  if bs.any (fun b => b.vol == 0) then none else
-  let ws := bs.map (fun b => b.vals.getD 0 0 * getWeight useParam b / b.vol)
-  let xs := bs.map (fun b => b.vals.getD 1 0)
+  let cs := candidates bs
+  if cs.any (fun b => b.vol == 0) then none else
+  let ws := cs.map (fun b => b.vals.getD 0 0 * getWeight useParam b / b.vol)
+  let xs := cs.map (fun b => b.vals.getD 1 0)
   if rsum ws = 0 then some 0 else some (dot ws xs / rsum ws)
 
 /-! ### median block -/
